@@ -562,6 +562,49 @@ pub fn run(tier: Tier) -> i32 {
             rep.violation(&format!("C02/root=ram-start-of-the-selected-row/device={}", d.name), || what, || json!({"kind": "build_str", "source": src, "expected": {"result": "ok", "code": sut::hex(&want)}, "observed": o.to_json()}));
         }
     }
+    // blocks that reach the program through `.include`: a file that places items, read once,
+    // twice and three times (into the flash and the EEPROM, at the current position and behind
+    // an .org) - every copy lands where the position counter stands, and `pc` / a label behind
+    // it shows the position after it
+    let mut n_included_blocks = 0u64;
+    {
+        let scratch = crate::report::Scratch::new("c02");
+        let blocks: [(&str, &str); 3] = [("table", ".db 1, 2, 3, 4, 5\n"), ("code", "ldi r16, 1\nnop\nldi r17, 2\n"), ("words", ".dw 0x1111, 0x2222\n.dw pc\n")];
+        for (bname, btext) in blocks.iter() {
+            let inc = ".include \"blk.inc\"\n";
+            let mains: Vec<(&str, String)> = vec![
+                ("once", format!("nop\n{inc}end_l:\n.dw end_l, pc\n")),
+                ("twice-in-a-row", format!("nop\n{inc}{inc}end_l:\n.dw end_l, pc\n")),
+                ("three-times", format!("{inc}nop\n{inc}nop\n{inc}end_l:\n.dw end_l\n")),
+                ("again-behind-an-org", format!("{inc}.org 0x20\n{inc}end_l:\n.dw end_l, pc\n")),
+                ("again-behind-an-org-three-times", format!("{inc}.org 0x20\n{inc}.org 0x40\n{inc}end_l:\n.dw end_l, pc\n")),
+                ("flash-then-eeprom", format!("{inc}.eseg\n{inc}e_end_l:\n.cseg\n.dw e_end_l, pc\n")),
+                ("eeprom-twice-then-flash", format!(".eseg\n{inc}{inc}e_end_l:\n.cseg\n{inc}.dw e_end_l, pc\n")),
+            ];
+            for (mname, main) in mains.iter() {
+                if *bname == "code" && mname.contains("eeprom") {
+                    continue;
+                }
+                let d = scratch.path.join(format!("{}-{}", bname, mname));
+                std::fs::create_dir_all(&d).unwrap_or_else(|e| machinery_fail(&format!("C02 scratch: {}", e)));
+                std::fs::write(d.join("blk.inc"), btext).unwrap_or_else(|e| machinery_fail(&format!("C02 scratch: {}", e)));
+                std::fs::write(d.join("main.asm"), main).unwrap_or_else(|e| machinery_fail(&format!("C02 scratch: {}", e)));
+                let o = sut::build_file(d.join("main.asm"), BTreeSet::new());
+                let pasted = main.replace(inc, btext);
+                let want = sut::build_str(&pasted);
+                n_included_blocks += 1;
+                let same = match (&o, &want) {
+                    (Outcome::Ok(a), Outcome::Ok(b)) => a.code == b.code && a.eeprom == b.eeprom && a.ram_filling == b.ram_filling,
+                    (_, Outcome::Ok(_)) => false,
+                    (_, other) => machinery_fail(&format!("C02: the pasted text of an include program does not build: {}", other.brief())),
+                };
+                if !same {
+                    rep.violation(&format!("C02/root=included-block/kind={}/block={}", mname, bname), || format!("a file that places items, included {}: {} but the pasted text gives {}", mname, match &o { Outcome::Ok(b) => format!("code {} eeprom {}", sut::hex_trunc(&b.code, 40), sut::hex_trunc(&b.eeprom, 16)), other => other.brief() }, match &want { Outcome::Ok(b) => format!("code {} eeprom {}", sut::hex_trunc(&b.code, 40), sut::hex_trunc(&b.eeprom, 16)), other => other.brief() }), || json!({"kind": "file_tree", "files": {"main.asm": main, "blk.inc": btext}, "main": "main.asm", "caller_paths": [], "pasted_program": pasted, "observed": o.to_json(), "expected": want.to_json()}));
+                }
+                let _ = std::fs::remove_dir_all(&d);
+            }
+        }
+    }
     rep.guard(n_ok.load(Ordering::Relaxed) > 1000 && n_err.load(Ordering::Relaxed) > 100, "need both Ok and Err outcomes");
     rep.guard(distinct > 1000, "fewer than 1000 distinct observed images");
     for c in ["instruction", "db", "dw-dd-dq", "byte", "org", "org-expr", "byte-expr", "org0-start", "org-back", "segment"] {
@@ -583,6 +626,7 @@ pub fn run(tier: Tier) -> i32 {
         "exhaustive": true,
         "caps_hit": [],
         "distinct_observed_outcomes": distinct,
+        "programs_with_blocks_placed_through_include": n_included_blocks,
         "ok_outcomes": n_ok.load(Ordering::Relaxed),
         "err_outcomes": n_err.load(Ordering::Relaxed),
         "alphabet_use_as_last_action": *act_use.lock().unwrap(),
